@@ -2,6 +2,7 @@ import RR.Proof.Codec
 import RR.Proof.Au
 import RR.Proof.AuBlock
 import RR.Proof.AuEnc
+import RR.Proof.Tcp
 import RR.Proof.Sigmf
 
 /-!
@@ -105,6 +106,24 @@ theorem c14_au_stream_roundtrip (bitrate : Nat) (hb : bitrate < 256 ^ 4) (q : Na
   rw [hdec] at e1
   cases e1
   exact ⟨_, e3⟩
+
+/-- **TcpSource's carry-buffer code** (`tcpStep` mirrors `work()` after a successful `read()`: the partial
+sample kept from earlier reads is completed with as many bytes as arrived, whole samples are parsed from the
+rest, a new remainder is kept): for EVERY sequence of non-empty reads the samples pushed, concatenated over the
+calls, are exactly the whole samples of all bytes read so far, in order, and fewer than one sample's bytes are
+held back — it computes the ideal reassembly of `c14_reassemble`, whatever the read boundaries. -/
+theorem c14_tcp_source (t : Ty) (chunks : List (List Nat)) (hne : ∀ c ∈ chunks, c ≠ []) :
+    (tcpAll t [] chunks).2.flatten = parseAll t chunks.flatten ∧ (tcpAll t [] chunks).1.length < t.size := by
+  obtain ⟨h1, h2⟩ := tcpAll_spec t [] chunks (by simpa using size_pos t) hne
+  refine ⟨?_, h2⟩
+  have := congrArg Prod.snd h1
+  simp only at this
+  rw [this, (c14_reassemble t chunks).1]
+
+/-- one read: the real code's step equals the ideal `feed` -/
+theorem c14_tcp_step (t : Ty) (buf chunk : List Nat) (hb : buf.length < t.size) (hc : chunk ≠ []) :
+    tcpStep t buf chunk = feed t buf chunk :=
+  tcp_refines_feed t buf chunk hb hc
 
 /-- **AuEncode as a block, every schedule** of read windows and output space (also one byte of room at a
 time, so that the header or a sample does not fit): the bytes written so far are the first `k` header bytes
